@@ -431,6 +431,42 @@ def groupings(rep, rng, tier):
     return viol
 
 
+def matrix_elements(rep, rng, tier):
+    """<bra| op |ket> for square and rectangular operators, both states given as a ket or as a bra, in every
+    combination of storage formats: the NumPy expression on the dense matrices"""
+    import qutip
+    dimsets = [[2], [3], [2, 2], [2, 3], [1, 2], [4], [5]]
+    out = []
+    for _ in range(60 if tier == "quick" else 600):
+        d_out = dimsets[int(rng.integers(0, len(dimsets)))]
+        d_in = d_out if rng.random() < 0.3 else dimsets[int(rng.integers(0, len(dimsets)))]
+        n, m = int(np.prod(d_out)), int(np.prod(d_in))
+        A = ident(n, m, rng) * (rng.random((n, m)) < float(rng.choice([0.4, 0.8, 1.0])))
+        l, r = ident(n, 1, rng), ident(m, 1, rng)
+        want = (l.conj().T @ A @ r)[0, 0]
+        op = qutip.Qobj(A, dims=[d_out, d_in])
+        lq = qutip.Qobj(l, dims=[d_out, [1] * len(d_out)])
+        rq = qutip.Qobj(r, dims=[d_in, [1] * len(d_in)])
+        for fo in ("csr", "dense", "dia"):
+            for fl in ("csr", "dense", "dia"):
+                for fr_ in ("csr", "dense", "dia"):
+                    for lb in (False, True):
+                        for rb in (False, True):
+                            rep.evaluations += 1
+                            L = (lq.dag() if lb else lq).to(fl)
+                            R = (rq.dag() if rb else rq).to(fr_)
+                            try:
+                                got = op.to(fo).matrix_element(L, R)
+                            except Exception as e:
+                                out.append((f"matrix-element-raises:{fo}", f"matrix_element raises {type(e).__name__}: {e}"[:200], {"A": str(A.tolist())}))
+                                continue
+                            if abs(got - want) > 1e-9 * max(1.0, abs(want)):
+                                out.append((f"matrix-element:{fl}+{fo}+{fr_}", f"<l|A|r> with A {n}x{m} ({fo}), l as a {'bra' if lb else 'ket'} ({fl}), r as a {'bra' if rb else 'ket'} ({fr_}) gives {got}, NumPy gives {want}",
+                                            {"A": str(A.tolist()), "l": str(l.ravel().tolist()), "r": str(r.ravel().tolist())}))
+        rep.count("matrix-element-" + ("square" if n == m else "wide" if n < m else "tall"))
+    return out
+
+
 def run(tier, seed, replay):
     rep = core.Report(PID, tier, seed)
     rep.rule = ("dimension specs: random nested lists (flat, extra layer, superoperator pairs, 1-factors, malformed), pairs for "
@@ -468,8 +504,11 @@ def run(tier, seed, replay):
         extra += [([X, Y], [Y, Z]), ([X, Y], [Y2, Z]), ([X, Y], [Y, Z])]
     pairs += extra
     lines += ["C02.matmul " + json.dumps({"tidy": True, "a": a, "b": b}) for a, b in pairs]
+    # the same specifications with the tidy-up of all-1 spaces switched off (settings.core["auto_tidyup_dims"] = False)
+    nbase = len(lines)
+    lines += ["C02.dims " + json.dumps({"tidy": False, "spec": s, **({"rep": r} if r else {})}) for s, r in specs]
     seen_g = set()
-    for sig, what, data in groupings(rep, rng, tier):
+    for sig, what, data in matrix_elements(rep, np.random.default_rng([seed, 77]), tier) + groupings(rep, rng, tier):
         if sig not in seen_g:
             seen_g.add(sig)
             rep.violation(core.Violation("C02:" + sig, what, data))
@@ -514,6 +553,24 @@ def run(tier, seed, replay):
             ndis += 1
             if first is None:
                 first = {"a": a, "b": b, "model": m, "impl": want}
+    with qutip.CoreOptions(auto_tidyup_dims=False):
+        for (s, r), m in zip(specs, model[nbase:nbase + len(specs)]):
+            out = real_dims(s, r)
+            realj = out if isinstance(out, dict) else out[0]
+            rep.evaluations += 1
+            rep.count("untidy-type=" + str(realj.get("type", realj.get("error"))))
+            if realj != m:
+                ndis += 1
+                if first is None:
+                    first = {"spec": s, "rep": r, "auto_tidyup_dims": False, "model": m, "impl": realj}
+            # the type is a function of the sizes only: a side of total size 1 is a trivial side however it is written
+            if not isinstance(out, dict):
+                d = out[1]
+                one_to, one_from = int(d.shape[0]) == 1, int(d.shape[1]) == 1
+                want_t = ("scalar" if one_to and one_from else ("operator-ket" if d.issuper else "ket") if one_from
+                          else ("operator-bra" if d.issuper else "bra") if one_to else ("super" if d.issuper else "oper"))
+                if d.type != want_t:
+                    rep.violation(core.Violation("C02:untidy-type", f"with auto_tidyup_dims=False, Dimensions({s}) has type {d.type!r}, its shape {d.shape} makes it a {want_t!r}", {"spec": s, "rep": r}))
     rep.notes["correspondence_disagreements"] = ndis
     if ndis:
         rep.broken.append({"kind": "correspondence", "which": "C02.dims/matmul", "count": ndis, "first": first})
